@@ -51,6 +51,34 @@ let str_of_cks (cks : z list cksum list) : string =
   String.concat "," (List.map2 (fun c k ->
     Printf.sprintf "%d:%d:%d:%d" (int_of_z c.c_off) (int_of_z c.c_size) (int_of_z c.c_weak) k) cks cls)
 
+
+(* ---- strings as code-point lists (N) ---- *)
+let rec n_of_int n = if n = 0 then N0 else Npos (pos_of_int n)
+let int_of_n = function N0 -> 0 | Npos p -> int_of_pos p
+let raw_of_hex (s : string) : int list =
+  if s = "-" then [] else List.init (String.length s / 2) (fun i -> hexval s.[2*i] * 16 + hexval s.[2*i+1])
+(* UTF-8 decode (inputs are valid UTF-8 produced by the generators) *)
+let rec utf8 (b : int list) : int list = match b with
+  | [] -> []
+  | c :: t when c < 0x80 -> c :: utf8 t
+  | c :: d :: t when c < 0xE0 -> (((c land 0x1F) lsl 6) lor (d land 0x3F)) :: utf8 t
+  | c :: d :: e :: t when c < 0xF0 -> (((c land 0x0F) lsl 12) lor ((d land 0x3F) lsl 6) lor (e land 0x3F)) :: utf8 t
+  | c :: d :: e :: f :: t -> (((c land 0x07) lsl 18) lor ((d land 0x3F) lsl 12) lor ((e land 0x3F) lsl 6) lor (f land 0x3F)) :: utf8 t
+  | _ -> []
+let str_of_hex h : n list = List.map n_of_int (utf8 (raw_of_hex h))
+let split_path (s : n list) : n list list =
+  let rec go cur acc = function
+    | [] -> List.rev (if cur = [] then acc else List.rev cur :: acc)
+    | c :: t -> if int_of_n c = 47 then go [] (if cur = [] then acc else List.rev cur :: acc) t else go (c :: cur) acc t in
+  go [] [] s
+let rules_of_spec spec =
+  if spec = "-" then Some [] else
+  build_rules (List.map (fun item ->
+    match String.split_on_char ':' item with
+    | [k; h] -> (n_of_int (int_of_string k), str_of_hex h)
+    | _ -> failwith "rule") (String.split_on_char ',' spec))
+let optn s = if s = "-" then None else Some (n_of_int (int_of_string s))
+
 let app_str old = function
   | None -> "NOOPS"
   | Some ops -> (match apply old ops with None -> "ERR" | Some l -> hex_of_bytes l)
@@ -79,6 +107,27 @@ let handle (toks : string list) : string =
       let h = hash data in
       let f l = String.concat "," (List.map (fun z -> string_of_int (int_of_z z)) l) in
       Printf.sprintf "hash=%d rolled=%s direct=%s" (int_of_z h) (f rolled) (f direct)
+  | ["F"; spec; ents] ->
+      (match rules_of_spec spec with
+       | None -> "rules=ERR"
+       | Some rules ->
+         String.concat "" (List.map (fun e ->
+           match String.split_on_char ':' e with
+           | [k; h] -> if should_include rules (split_path (str_of_hex h)) (k = "d") then "1" else "0"
+           | _ -> "?") (String.split_on_char ',' ents)))
+  | ["S"; spec; mn; mx; ents] ->
+      (* engine selection over a scanner listing: prints the indexes of the selected entries *)
+      (match rules_of_spec spec with
+       | None -> "rules=ERR"
+       | Some rules ->
+         let es = if ents = "-" then [] else List.mapi (fun i e ->
+           match String.split_on_char ':' e with
+           | [k; h; sz] -> (i, { e_path = split_path (str_of_hex h); e_is_dir = (k = "d"); e_size = n_of_int (int_of_string sz) })
+           | _ -> failwith "entry") (String.split_on_char ',' ents) in
+         let sel = engine_select rules (optn mn) (optn mx) (List.map snd es) in
+         (* entries are distinct by path, recover indexes by physical position *)
+         let idx = List.filter_map (fun (i, e) -> if List.exists (fun s -> s == e) sel then Some (string_of_int i) else None) es in
+         Printf.sprintf "wf=%d sel=%s" (if listing_ok (List.map snd es) then 1 else 0) (if idx = [] then "-" else String.concat "," idx))
   | _ -> "BADCASE"
 
 let () =
